@@ -21,6 +21,7 @@ fn lookup(cmd: &str) -> Option<CaseFn> {
         "c04" => cases::query::c04,
         "c05" => cases::rtree::c05,
         "c06" => cases::rt::c06,
+        "c09emit" => cases::rt::c09emit,
         "c07" => cases::zoom::c07,
         "c08" => cases::zoom::c08,
         _ => return None,
